@@ -327,16 +327,17 @@ pub(crate) fn collect_and_prepare<S: IndexedFull>(
                     }
                     Ordering::Equal => {
                         // process existing node
-                        if (node.is_dir() && !destination.file_type().is_dir())
+                        let types_match = !((node.is_dir() && !destination.file_type().is_dir())
                             || (node.is_file() && !destination.file_type().is_file())
-                            || node.is_special()
-                        {
+                            || node.is_special());
+                        if types_match {
+                            next_dst = next_entry(&mut walker);
+                        } else {
                             // if types do not match, first remove the existing file
                             next_dst = process_existing(&mut walker, destination)?;
-                        } else {
-                            next_dst = next_entry(&mut walker);
                         }
-                        process_node(path, node, true)?;
+                        // an entry of another type does not count as existing: the node must be created
+                        process_node(path, node, types_match)?;
                         next_node = node_streamer.next().transpose()?;
                     }
                     Ordering::Greater => {
